@@ -78,6 +78,47 @@ def observe_numconv(fx, np, props, t, codes, byvalue=False, hist=None):
         return dict(row, k='error', err=type(ex).__name__, msg=str(ex)[:200])
 
 
+def _scaled_followups(fx, np, x):
+    """The object stays an affine wrapper around its code after routes that store a CODE (raw store, resize without restoring,
+    equal(), bitwise not, indexing): each entry reports the format, codes, reads and limits seen afterwards."""
+    out = []
+
+    def snap(how, y):
+        out.append({'how': how, 'z': fmt_of(y), 'c': [wint(c) for c in common.codes_of(y)],
+                    'rb': [wdy(b) for b in np.asarray(y.get_val(), dtype=float).ravel().tolist()],
+                    'lim': [wdy(float(y.upper)), wdy(float(y.lower)), wdy(float(y.precision))]})
+
+    def attempt(how, f):
+        try:
+            snap(how, f())
+        except Exception as ex:
+            out.append({'how': how + '.raised:' + type(ex).__name__, 'z': fmt_of(x), 'c': [], 'rb': [], 'lim': [wdy(0), wdy(0), wdy(0)]})
+
+    def raw_store():
+        y = x.deepcopy(); y.set_val(np.array(y.val).copy() if isinstance(y.val, np.ndarray) else int(y.val), raw=True); return y
+
+    def raw_then_resize():
+        y = raw_store(); y.resize(bool(x.signed), int(x.n_word) + 2, int(x.n_frac) + 1); return y
+
+    def resize_norestore():
+        y = x.deepcopy(); y.resize(bool(x.signed), int(x.n_word), int(x.n_frac), restore_val=False); return y
+
+    def equal_copy():
+        y = x.deepcopy(); y.equal(x.deepcopy()); return y
+
+    def raw_then_value():
+        y = raw_store(); y.set_val(x.get_val()); return y
+    attempt('raw-store', raw_store)
+    attempt('raw-store+resize', raw_then_resize)
+    attempt('resize-norestore', resize_norestore)
+    attempt('raw-store+value-store', raw_then_value)
+    attempt('invert', lambda: ~x)
+    if np.ndim(x.val) >= 1 and np.size(x.val) >= 1:
+        attempt('getitem', lambda: x[0])
+        attempt('slice', lambda: x[::-1])
+    return out
+
+
 def observe_scaled(fx, np, props, t, modes, scale, bias, us, route='ctor', scalar=True, infer=False):
     """scale, bias: Fractions (dyadic).  us: the unscaled grid values u; the user-level inputs are v = u*scale + bias."""
     row = {'k': 'scaled', 'p': list(props), 's': bool(t[0]), 'w': t[1], 'f': t[2], 'r': modes[0], 'o': modes[1], 'sc': wdy(scale),
@@ -131,6 +172,7 @@ def observe_scaled(fx, np, props, t, modes, scale, bias, us, route='ctor', scala
             fo, fu, fi = [fl['o']], [fl['u']], [fl['i']]
             lims = [wdy(float(x.upper)), wdy(float(x.lower)), wdy(float(x.precision))]
             zs = fmt_of(x)
-        return dict(row, u=[wdy(u) for u in us], v=[wdy(v) for v in vs], c=cs, rb=rbs, fo=fo, fu=fu, fi=fi, lim=lims, z=zs)
+        return dict(row, u=[wdy(u) for u in us], v=[wdy(v) for v in vs], c=cs, rb=rbs, fo=fo, fu=fu, fi=fi, lim=lims, z=zs,
+                    after=_scaled_followups(fx, np, x))
     except Exception as ex:
         return dict(row, k='error', err=type(ex).__name__, msg=str(ex)[:200])
